@@ -36,7 +36,7 @@ ASSUMPTIONS = [
     "child and receiver share the filesystem (the child's context directory is where the deserialised array's intermediates go)",
 ]
 NSHARDS = {"quick": 16, "thorough": 32}
-PER_SHARD = {"quick": 40, "thorough": 700}
+PER_SHARD = {"quick": 40, "thorough": 240}
 
 CHILD = r"""
 import json, os, sys
@@ -254,9 +254,9 @@ def finalize(tier, merged):
     return {
         "rule": RULE,
         "floors": [
-            ("arrays built in a child process and shipped", c.get("arrays_shipped", 0), 300 if tier == "quick" else 6000),
-            ("combinations of a deserialised and a local array computed", c.get("combined_left", 0) + c.get("combined_right", 0) + c.get("shared_ancestry", 0), 700 if tier == "quick" else 15000),
-            ("receivers whose counters overlap the child's names", c.get("with_name_overlap", 0), 150 if tier == "quick" else 3000),
+            ("arrays built in a child process and shipped", c.get("arrays_shipped", 0), 300 if tier == "quick" else 4000),
+            ("combinations of a deserialised and a local array computed", c.get("combined_left", 0) + c.get("combined_right", 0) + c.get("shared_ancestry", 0), 700 if tier == "quick" else 10000),
+            ("receivers whose counters overlap the child's names", c.get("with_name_overlap", 0), 150 if tier == "quick" else 2000),
         ],
         "assumptions": ASSUMPTIONS,
     }
